@@ -593,6 +593,37 @@ def _receiver_start(code, i):
     return j
 
 
+
+def rewrite_entry_or_insert_with(code, stats):
+    """R17: `M.entry(K).or_insert_with(|| B)` by its definition (assumed std contract): the closure runs iff
+    the key is absent, its result is stored under the key, and a mutable reference to the stored value is
+    returned ->  `{ let k_ = K; let fresh_ = if M.contains_key(&k_) { None } else { Some(B) }; M.slot_(k_, fresh_) }`
+    (`slot_` is the prelude's stand-in for the occupied / vacant entry).  The closure body B is copied verbatim
+    and becomes straight-line code, so what it does to the state it captures is verified."""
+    for _ in range(4):
+        masked = mask_trivia(code)
+        m = re.search(r"\.\s*entry\s*\(", masked)
+        if not m:
+            break
+        op = m.end() - 1
+        cl = match_close(code, op, "(", ")")
+        m2 = re.compile(r"\s*\.\s*or_insert_with\s*\(\s*(move\s*)?\|\s*\|\s*").match(masked, cl + 1)
+        if not m2:
+            raise ExtractError("R17: entry(..) not followed by or_insert_with(|| ..)")
+        op2 = masked.index("(", cl + 1)
+        cl2 = match_close(code, op2, "(", ")")
+        rs = _receiver_start(code, m.start())
+        recv = re.sub(r"\s+", "", code[rs:m.start()])
+        key = code[op + 1:cl].strip()
+        body = code[m2.end():cl2].strip()
+        if body.endswith(","):
+            body = body[:-1].rstrip()
+        new = ("{ let k_ = %s; let fresh_ = if %s.contains_key(&k_) { None } else { Some(%s) }; %s.slot_(k_, fresh_) }"
+               % (key, recv, body, recv))
+        code = code[:rs] + new + code[cl2 + 1:]
+        stats["R17"] = stats.get("R17", 0) + 1
+    return code
+
 def rewrite_iter_adapters(code, stats):
     """R9: definitions of the std iterator adapters used by rxRust, as loops.
       R9a  E.iter_mut().for_each(|p| B)                 ->  index loop over E, p = &mut E[i]
@@ -645,7 +676,7 @@ def rewrite_iter_adapters(code, stats):
     # R9i: `E.drain(..)` (consumed completely by a `for` loop or an adapter chain) = all elements of E, in
     # order, E left empty — the prelude's `drain_all_()`, followed by `.into_iter()`
     for n_ in range(4):
-        m = re.search(r"\.\s*drain\(\s*\.\.\s*\)", code)
+        m = re.search(r"\.\s*drain\(\s*(?:\.\.)?\s*\)", code)
         if not m:
             break
         rs = _receiver_start(code, m.start())
@@ -658,6 +689,13 @@ def rewrite_iter_adapters(code, stats):
         name_ = "drained%d_" % n_
         code = (code[:ins] + "\n        let mut %s = %s.drain_all_();\n" % (name_, flat(recv))
                 + code[ins:rs] + name_ + ".into_iter()" + code[m.end():])
+        stats["R9"] = stats.get("R9", 0) + 1
+    # R9k: a tuple pattern in a `for` header is bound inside the body (`for (a, b) in E {` = `for pair_ in E { let (a, b) = pair_;`)
+    for _ in range(6):
+        m = re.search(r"\bfor\s+(\((?:[\w\s,&]|\bmut\b)*\))\s+in\s+([^{;]+?)\s*\{", code)
+        if not m:
+            break
+        code = code[:m.start()] + "for pair_ in %s { let %s = pair_;" % (m.group(2).strip(), m.group(1)) + code[m.end():]
         stats["R9"] = stats.get("R9", 0) + 1
     # R9f/R9g: explicit `for` loops over the same collections are brought to the same normal form,
     # so that a unit's loop contracts do not depend on which of the two spellings the code uses
@@ -1298,6 +1336,7 @@ def process_fn(fn, spec, handle, stats, canary):
         body = (body[:rm_.start()] + "(match %s { Poll::Ready(ready_v_) => ready_v_, Poll::Pending => { return Poll::Pending; } })" % body[rm_.end():re_]
                 + body[re_ + 1:])
         stats["R14"] = stats.get("R14", 0) + 1
+    body = rewrite_entry_or_insert_with(body, stats)
     body = rewrite_iter_adapters(body, stats)
     body = rewrite_map_or(body, stats)
     body = drop_attrs_and_docs(body)
@@ -1724,6 +1763,7 @@ FILE_HEAD = """#![feature(allocator_api)]
 use vstd::prelude::*;
 use std::collections::VecDeque;
 use std::collections::HashSet;
+use std::collections::HashMap;
 use std::hash::Hash;
 use std::marker::PhantomData;
 verus! {
